@@ -50,6 +50,8 @@ def strategy_(draw):
             # a requested chunk size above ceil(n / workers): the documented chunking is then decided by the worker count
             m['cfg']['chunk_size'] = draw(st.integers(math.ceil(n / k), n + 3))
         m['cfg']['tmp_dir'] = True
+        if draw(st.integers(0, 2)) == 0:
+            m['cfg']['rng_seed'] = draw(st.sampled_from([0, 0, 1, 2**31 - 1, 2**32 - 1]))     # seeds at the edges of the range
         spec['map'] = m
     else:
         # reference-marker discovery also on wider taxonomies (>=32 leaf pairs: the pairs-per-worker batch then depends
